@@ -109,6 +109,9 @@ def norm_stmt(n, out, ind):
         return ('seq', ir)
     if k == 'NullStmt':
         return ('seq', [])
+    if k == 'C19Init':
+        e = 'init %s := %s' % (n.get('name'), rx(inner[0]) if inner else '')
+        out.append(pad + e); return ('expr', '')
     if k == 'DeclStmt':
         ir = []
         for v in inner:
@@ -311,24 +314,41 @@ def model_automaton(prog_lines, role, labels):
 
 
 # ---------------------------------------------------------------- AST access
-def find_member(objs, cls, name, kinds, nested=None, nparams=None):
-    found = []
+def specializations(objs, cls):
+    """instantiated class bodies: inside the ClassTemplateDecl (implicit instantiation) or as a top-level
+    ClassTemplateSpecializationDecl (explicit instantiation definition, `template class ...;`)"""
+    specs = []
     for o in objs:
         if o.get('kind') == 'ClassTemplateDecl' and o.get('name') == cls:
-            for m in o.get('inner', []):
-                if m.get('kind') == 'ClassTemplateSpecializationDecl':
-                    scope = m.get('inner', [])
-                    if nested:
-                        scope = [y for x in scope if x.get('kind') == 'CXXRecordDecl' and x.get('name') == nested for y in x.get('inner', [])]
-                    for x in scope:
-                        if nparams is not None and sum(1 for y in x.get('inner', []) if y.get('kind') == 'ParmVarDecl') != nparams:
-                            continue
-                        if 'GetFreeRaws' == name and 'const' in qt(x).split(')')[-1]:
-                            continue
-                        if x.get('kind') in kinds and x.get('name') == name:
-                            body = [y for y in x.get('inner', []) if y.get('kind') == 'CompoundStmt']
-                            if body:
-                                found.append(body[0])
+            specs += [m for m in o.get('inner', []) if m.get('kind') == 'ClassTemplateSpecializationDecl']
+        if o.get('kind') == 'ClassTemplateSpecializationDecl' and o.get('name') == cls:
+            specs.append(o)
+    return [s for s in specs if s.get('inner')]
+
+
+def find_member(objs, cls, name, kinds, nested=None, nparams=None, first_param=None):
+    """bodies (and, for constructors, member initialisers) of the instantiated member `name`"""
+    found = []
+    for m in specializations(objs, cls):
+        scope = m.get('inner', [])
+        if nested:
+            scope = [y for x in scope if x.get('kind') == 'CXXRecordDecl' and x.get('name') == nested for y in x.get('inner', [])]
+        for x in scope:
+            params = [y for y in x.get('inner', []) if y.get('kind') == 'ParmVarDecl']
+            if nparams is not None and len(params) != nparams:
+                continue
+            if first_param is not None and not (params and first_param in qt(params[0])):
+                continue
+            if 'GetFreeRaws' == name and 'const' in qt(x).split(')')[-1]:
+                continue
+            if x.get('kind') in kinds and x.get('name') == name:
+                body = [y for y in x.get('inner', []) if y.get('kind') == 'CompoundStmt']
+                if body:
+                    inits = [y for y in x.get('inner', []) if y.get('kind') == 'CXXCtorInitializer']
+                    if inits:
+                        body = [{'kind': 'CompoundStmt', 'inner': [{'kind': 'C19Init', 'name': y.get('anyInit', {}).get('name', '?'),
+                                                                     'inner': y.get('inner', [])} for y in inits] + body[0].get('inner', [])}]
+                    found.append(body[0])
     return found
 
 
@@ -367,6 +387,30 @@ for raw in this->mRaws {
   this->pvDestroyRaw(raw)
 }''',
 }
+# the Row object layer (TreiberRows.v: LMoveCtor, LSwap, move_assign = [LMoveCtor tmp b; LSwap tmp a; LDestroy tmp], extract_raw)
+EXPECTED_TEXT.update({
+    'DataRow(DataRow&&)': '''init mColumnList := row.mColumnList
+init mRaw := row.mRaw
+init mFreeRaws := row.mFreeRaws
+(row.mRaw = null)
+(row.mFreeRaws = null)''',
+    'DataRow(columnList,raw,freeRaws)': '''init mColumnList := columnList
+init mRaw := raw
+init mFreeRaws := freeRaws''',
+    'DataRow::operator=(DataRow&&)': '''construct(move(row)).Swap((*this))
+return (*this)''',
+    'DataRow::Swap': '''swap(this->mColumnList, row.mColumnList)
+swap(this->mRaw, row.mRaw)
+swap(this->mFreeRaws, row.mFreeRaws)''',
+    'DataRow::ptExtractRaw': '''var raw = this->mRaw
+(this->mRaw = null)
+return raw''',
+})
+ROW_MEMBERS = [('DataRow(DataRow&&)', 'DataRow', ('CXXConstructorDecl',), {'nparams': 1, 'first_param': '&&'}),
+               ('DataRow(columnList,raw,freeRaws)', 'DataRow', ('CXXConstructorDecl',), {'nparams': 3}),
+               ('DataRow::operator=(DataRow&&)', 'operator=', ('CXXMethodDecl',), {'first_param': '&&'}),
+               ('DataRow::Swap', 'Swap', ('CXXMethodDecl',), {}),
+               ('DataRow::ptExtractRaw', 'ptExtractRaw', ('CXXMethodDecl',), {})]
 MODEL_LABELS = {'~DataRow': ('disposer', ('begin', 'load', 'link', 'cas:ok', 'cas:fail')),
                 'pvDeallocateFreeRaws': ('owner', ('exchange', 'read', 'free', 'done'))}
 # the two wrappers are not separate pcs of the machine (OExchange / OAlloc / ORemove are enabled whenever the owner is
@@ -441,6 +485,23 @@ def check(repo, prog_lines):
             exp = EXPECTED_WRAPPER[fn]
             ok2 = auto == sorted(exp)
             obl.append({'name': 'AST: event order of wrapper %s' % fn, 'ok': ok2, 'detail': '' if ok2 else 'source %s / expected %s' % (auto, sorted(exp))})
+    for (fn, member, kinds, kw) in ROW_MEMBERS:
+        bodies = find_member(objs_r, 'DataRow', member, kinds, **kw)
+        if len(bodies) != 1:
+            obl.append({'name': 'AST: instantiated body of ' + fn, 'ok': False, 'detail': '%d instantiated bodies found' % len(bodies)})
+            continue
+        try:
+            lines = []; norm_stmt(bodies[0], lines, 0); text = '\n'.join(lines)
+        except (Deviation, KeyError, IndexError, TypeError) as e:
+            obl.append({'name': 'AST: canonical form of ' + fn, 'ok': False, 'detail': 'cannot normalise: %r' % (e,)})
+            continue
+        report[fn] = {'text': text, 'automaton': []}
+        ok = text == EXPECTED_TEXT[fn]
+        det = ''
+        if not ok:
+            import difflib
+            det = '\n'.join(difflib.unified_diff(EXPECTED_TEXT[fn].splitlines(), text.splitlines(), 'modelled', 'source', lineterm=''))
+        obl.append({'name': 'AST: %s has exactly the modelled effect on (mColumnList, mRaw, mFreeRaws) [TreiberRows.v]' % fn, 'ok': ok, 'detail': det})
     return obl, report
 
 
